@@ -22,6 +22,7 @@ type c06Case struct {
 	Mode  int // bit0: shared *Query (concurrent compilation) instead of shared *Code; bit1: one shared input instead of private copies
 	G, R  int
 	Multi bool // every goroutine runs on its own variant of the input (c06Variant) and is compared with that variant's run alone
+	Vars  bool // compiled with WithVariables($a, $b); every goroutine passes the same caller-owned values slice (spare capacity)
 }
 
 // c06Spare rebuilds v with spare capacity behind every array (what a decoder or a slice expression leaves behind).
@@ -110,14 +111,27 @@ var kC06 = run.NewKind("c06.concurrent", func(c *run.Ctx, t c06Case) *run.Fail {
 		c.Inconclusive("does-not-parse")
 		return nil
 	}
-	code, cerr, pan := run.CompileQuery(q)
-	if pan != "" || cerr != nil {
+	var copts []gojq.CompilerOption
+	var values []any
+	if t.Vars {
+		copts = []gojq.CompilerOption{gojq.WithVariables([]string{"$a", "$b"})}
+		values = append(make([]any, 0, 6), "A", []any{"B"})
+	}
+	compile := func() (*gojq.Code, error, string) {
+		if t.Vars {
+			r := run.Compile(t.Src, copts...)
+			return r.Code, r.Err, r.Panic
+		}
+		return run.CompileQuery(q)
+	}
+	code, cerr, pan := compile()
+	if pan != "" || cerr != nil || code == nil {
 		c.Inconclusive("does-not-compile")
 		return nil
 	}
 	before := raceLogSize()
 	// sequential baseline, alone
-	base := run.RunCode(code, run.DeepCopy(t.Input.V), nil, defBudget, 500)
+	base := run.RunCode(code, run.DeepCopy(t.Input.V), values, defBudget, 500)
 	if base.End == run.EndBudget {
 		c.Inconclusive("budget")
 		return nil
@@ -126,7 +140,7 @@ var kC06 = run.NewKind("c06.concurrent", func(c *run.Ctx, t c06Case) *run.Fail {
 	wants := make([]string, t.G)
 	if t.Multi {
 		for g := range wants {
-			b := run.RunCode(code, c06Variant(t.Input.V, g), nil, defBudget, 500)
+			b := run.RunCode(code, c06Variant(t.Input.V, g), values, defBudget, 500)
 			if b.End == run.EndBudget {
 				c.Inconclusive("budget")
 				return nil
@@ -135,6 +149,12 @@ var kC06 = run.NewKind("c06.concurrent", func(c *run.Ctx, t c06Case) *run.Fail {
 		}
 	}
 	shared := c06Spare(t.Input.V) // used only in shared-input mode; never written by the harness
+	// the goroutines share a Code that has never run: whatever a Code builds lazily on first use is built under
+	// contention (the baseline above ran on another Code of the same program)
+	if fresh, ferr, fpan := compile(); ferr == nil && fpan == "" && fresh != nil {
+		code = fresh
+	}
+	valuesSnap := run.Canon(values[:cap(values)])
 	sharedQuery, sharedInput := t.Mode&1 != 0, t.Mode&2 != 0
 	G, R := t.G, t.R
 	var wg sync.WaitGroup
@@ -176,9 +196,12 @@ var kC06 = run.NewKind("c06.concurrent", func(c *run.Ctx, t c06Case) *run.Fail {
 						}
 					}()
 					var iter gojq.Iter
-					if sharedQuery {
+					switch {
+					case t.Vars:
+						iter = code.RunWithContext(ctx, in, values...)
+					case sharedQuery:
 						iter = q.RunWithContext(ctx, in)
-					} else {
+					default:
 						iter = code.RunWithContext(ctx, in)
 					}
 					tr = run.Drain(iter, ctx, 500, false)
@@ -196,6 +219,9 @@ var kC06 = run.NewKind("c06.concurrent", func(c *run.Ctx, t c06Case) *run.Fail {
 	c.AddEvals(int64(G * R))
 	c.Count("concurrent_runs", int64(G*R))
 	c.Distinct("modes", fmt.Sprint(t.Mode))
+	if t.Vars && run.Canon(values[:cap(values)]) != valuesSnap {
+		return run.Failf("%q: the caller's values slice (with its spare capacity) read %s before the runs and %s after them", t.Src, valuesSnap, run.Canon(values[:cap(values)]))
+	}
 	if n := mism.Load(); n > 0 {
 		return run.Failf("%q: %d of %d concurrent runs differ from the run alone (%s); first: %v", t.Src, n, G*R, run.Clip(want), firstDiff.Load())
 	}
@@ -242,6 +268,9 @@ var c06PerInput = []string{
 }
 
 var c06Hand = []string{
+	// tables a Code fills on first use
+	"builtins | length", "[builtins] | .[0] | sort == .", "builtins | map(select(startswith(\"a\"))) | length", "[builtins, builtins] | .[0] == .[1]", "[.. | strings | test(\"a\"), test(\"b\"; \"i\"), test(\"c\"; \"g\")]", "[limit(5; builtins[])]", "env | type", "$ENV | type",
+	"[getpath([\"a\", \"b\"]), getpath([\"c\", 1])]", "[first(range(10)), last(range(10)), nth(3; range(10)), limit(2; range(10))]", "[splits(\"a\")?, ascii_downcase?, ltrimstr(\"a\")?, @base64?, @uri?, @html?, @sh?, @csv?, @tsv?, @json, @text]", "todate?, (now | type)", "input_line_number",
 	// updates whose right-hand side yields nothing (paths are collected and deleted at the end), flat and nested
 	".[] |= empty", ".c |= (.[] |= empty)?", "(.a, .c) |= empty", "map_values(empty)", "map_values(select(. != 1))?", "(.. | numbers) |= empty", ".c[] |= select(type == \"number\")", "[1,2,3,4,5,6,7,8,9,10] | (.[] | select(. % 2 == 0)) |= empty",
 	"[[1,2],[3,4]] | .[] |= (.[0] |= empty)", "{\"a\":[1,2,3],\"b\":[4,5]} | map_values(map_values(empty))", "[range(20)] | (.[] | select(. > 3)) |= empty | length", "(.a, .c, .a) |= (if type == \"object\" then map_values(empty) else empty end)?",
@@ -274,6 +303,11 @@ func init() {
 				for mode := 0; mode < 2; mode++ {
 					kC06.Do(c, c06Case{Src: src, Input: run.TV{V: inputs[(len(src)+mode)%3]}, Mode: mode, G: G, R: R, Multi: true})
 				}
+			}
+			// declared variables: one caller-owned values slice with spare capacity handed to every run
+			for _, src := range []string{"[$a, $b, .g]", "[$a, $b, .]", "$b + [.g] | length", "[.words[] | select(. == \"w\" + (.|tostring))] | [$a, length]", "{a: $a, b: $b, g: .g}", "[limit(3; repeat($a))] + $b", "$b[0] as $x | [$x, .g, $a]", "[$b, $b] | .[0] += [1] | [., $b]",
+				". as $d | reduce range(50) as $i ([]; . + [$a]) | [length, $d.g]", "[paths] | length | [$a, .]", "$__loc__? // [$a, $b]", "[$a, $b] | tojson"} {
+				kC06.Do(c, c06Case{Src: src, Input: run.TV{V: inputs[len(src)%3]}, Mode: 0, G: G, R: R, Multi: true, Vars: true})
 			}
 			for _, src := range c06Hand {
 				kC06.Do(c, c06Case{Src: ".v | " + src, Input: run.TV{V: inputs[len(src)%3]}, Mode: 0, G: G, R: R, Multi: true})
